@@ -23,7 +23,10 @@ THEOREMS = [P + t for t in [
     "unsafe_repr_rs_547", "unsafe_repr_rs_504_519", "unsafe_repr_rs_new_unchecked",
     "bump_slice_inside", "bump_writes_inside", "bump_slices_disjoint",
     "unsafe_repr_rs_290", "static_clone_correct", "static_clone_from_correct", "static_register_readonly", "unsafe_repr_rs_209", "unsafe_convert_rs_563_695", "unsafe_shift_rs_57", "unsafe_shift_rs_57_needs_nonempty", "unsafe_primitive_rs_66", "unsafe_primitive_rs_66_needs_two", "unsafe_primitive_rs_82", "unsafe_primitive_rs_96", "invariant_says_canonical", "arithmetic_histories_keep_invariant", "skeleton_ops_ok",
-    "unsafe_buffer_rs_438_zeroize", "unsafe_repr_rs_253_zeroize"]]
+    "unsafe_buffer_rs_438_zeroize", "unsafe_repr_rs_253_zeroize",
+    "skeleton_ops_ok_round4", "array_layout_spec", "add_max_layout_valid", "unsafe_memory_rs_43_70", "add_layout_serves_bump",
+    "add_layout_words", "pow_word_base_never_resizes", "pow_dword_base_never_resizes",
+    "skeleton_ops_ok_round4b", "skeleton_ops_ok_sqrt_rem", "max_layout_serves_each", "skeleton_ops_ok_ibig_bits"]]
 
 REFINED = [
     "buffer.rs: allocate_raw(97) deallocate_raw(111) reallocate_raw(148) push(209) push_repeat(235) push_zeros_front(266) "
@@ -39,6 +42,29 @@ REFINED = [
     "storage skeletons of UBig + - * / % << >> sqr from_le/be_bytes and IBig + - * (sign glue: into_sign_typed/as_sign_typed, add vs "
     "sub_signed by sign pair, with_sign) in all ownership forms (add_ops.rs/mul_ops.rs/div_ops.rs/shift_ops.rs/convert.rs): exact "
     "sequence of allocate/into()/ensure_capacity/push*/erase_front/from_buffer/drops, kernels abstracted to one overwrite",
+    "round 4 storage skeletons (Model/Mem/Arith2.lean, tied by the exact allocator event stream): DivRem::div_rem of UBig in all four "
+    "forms (div_ops.rs div_rem_dword / div_rem_large_dword / div_rem_large: div_rem_in_lhs with its scratch block, remainder copied "
+    "into the RHS buffer, erase_front leaves the quotient in the LHS buffer, from_buffer(lhs) then from_buffer(rhs)); UBig & | ^ in "
+    "all four forms (bits.rs bitand_large truncate, bitor/bitxor_large ensure_capacity + push_slice of the longer tail, "
+    "*_large_dword through lowest_dword(_mut), commutative rv arms); UBig::pow (pow.rs: factor-2 removal shr/pow/shl incl. the "
+    "checked_mul overflow panic and shl_large's in-place test on the REAL capacity, exp 0/1/2 shortcuts, pow_word_base and "
+    "pow_dword_base with the single result buffer doubled by push_zeros(len) and the add_layout scratch block, pow_large_base's "
+    "chain of square_large / mul_large results with the old value dropped after each assignment)",
+    "round 4 storage skeletons, second batch (Model/Mem/Arith3.lean, same tie): UBig set_bit / clear_bit / clear_high_bits / split_bits "
+    "/ next_power_of_two (bits.rs TypedRepr methods behind `self.0 = mem::take(self).into_repr().f(n)`: with_bit_large grows the "
+    "value's own buffer by ensure_capacity + push_zeros + push, clear_high_bits_large truncates, next_power_of_two_large "
+    "push_resizing(1), split_bits = shr_large_ref + clear_high_bits_large), IBig / % div_rem << >> pow as sign glue over the UBig "
+    "skeletons (into_sign_typed / as_sign_typed, with_sign; negative >> = shift, negate, by-value subtraction of the rounding bit); "
+    "IBig & | ^ for all sign pairs (impl_ibig_bitand/bitor/bitxor: sub_one in place or in a copy, the crate-internal and_not in four "
+    "forms, a final ! = add_one with push_resizing(1)); "
+    "UBig::sqrt_rem (root_ops.rs sqrt_rem_large(words, false): shl_large_ref(..).into_buffer() work copy, fresh root buffer, "
+    "max_layout(sqr, div) scratch block, remainder left in the truncated copy); the compound assignments op= / <<= / >>= "
+    "(impl_binop_assign_by_taking = mem::take + the by-value form) are driven as forms av / ar / a against the vv / vr / v skeletons",
+    "memory.rs array_layout / add_layout / max_layout / zero_layout and MemoryAllocation::new / Drop (36-50, 66-72): size/alignment "
+    "arithmetic over core::alloc::Layout's documented behaviour (Model/Mem/Layout.lean) — validity closure, the allocate_too_much arm "
+    "of new is dead for every valid layout, GlobalAlloc contract of alloc/dealloc, add_layout exactly sufficient and aligned for the "
+    "two nested bump requests that consume it, max_layout sufficient for either consumer alone (theorems; observed only through the "
+    "scratch sizes in the event streams)",
     "zeroize feature: Buffer::as_full_slice(438)+Zeroize, Repr::as_full_slice(253)+Zeroize — theorem only (harness is built "
     "without the feature)",
     "capacity policy default_capacity / max_compact_capacity (regenerated from source, Tie A)",
@@ -47,15 +73,22 @@ REFINED = [
 FRONTIER = [
     "NOT modelled: len/is_zero/is_one union reads "
     "(87,393,407: no memory access outside the struct), "
-    "unsafe impl Send/Sync (buffer.rs:35,38; repr.rs:62,65), memory.rs MemoryAllocation::new/Drop (38-43,68) only as the "
-    "scratch alloc/free events of the mul/div skeletons, Memory's Debug offset_from(27)",
+    "unsafe impl Send/Sync (buffer.rs:35,38; repr.rs:62,65), Memory's Debug offset_from(27); MemoryAllocation::memory()'s "
+    "`start.wrapping_add(size)` (no wrap: follows from the allocator contract, not proved)",
     "NOT modelled: arch/*/add.rs intrinsics, fmt/digit_writer.rs (exercised by Miri histories only)",
-    "arithmetic skeletons: div_rem, bit operations, gcd, pow, to_*_bytes (a Vec<u8>, not a word buffer), parsing/printing and "
-    "IBig / % are "
+    "arithmetic skeletons: gcd/gcd_ext (which operand copy ends up holding the result depends on the parity of the Lehmer "
+    "swap steps: needs C12's mirrored gcd_in_place), plain sqrt() (root_only: from_buffer is also called on the 2n-word work buffer "
+    "whose high half is kernel leftover, so its realloc/dealloc event depends on kernel state), nth_root (Newton loop over "
+    "public ops), IBig `!` as a public operator, mixed UBig/IBig operand forms, the Euclidean "
+    "division family, DivRemAssign, the primitive-operand forms, to_*_bytes (a Vec<u8>, not a word "
+    "buffer) and parsing/printing are "
     "NOT mirrored op by op; they are covered by the general theorem only through their final Repr::from_buffer / from_dword "
     "(any history of Buffer ops followed by from_buffer is canonical) and by the value-level exploration",
     "Rust-level UB that is not a ledger fact (aliasing/provenance, transmute validity, alignment, reads of uninitialised "
     "[len,cap)) — outside any executable Lean model; Miri is supporting evidence",
+    "pow_word_base / pow_dword_base: that the single result buffer never reallocates (`// actually never resize`) is proved for the "
+    "word and dword bases as a bound on the tracked length (pow_word_base_never_resizes, pow_dword_base_never_resizes; not as a total-correctness statement about the op sequence) and observed (no realloc event in the "
+    "compared streams); pow_word_base's power-of-two arms (set_bit) are unreachable from UBig::pow and not modelled",
     "allocation failure (null from alloc/realloc) is not modelled: the allocator is assumed to succeed",
     "value-level histories of the public API (mem.val) are EXPLORATION: values against Int arithmetic and the layout invariant "
     "observed through repr_info after every step; the kernels between Repr and Buffer (add/mul/div/shift/...) are other "
@@ -83,8 +116,10 @@ EXPLANATION = ("PROVED (Lean, all histories by induction over the op list, all M
                "replay_every_event_safe); no transmute/inline-copy UB point reached (history_no_ub); dropping every register "
                "leaves an empty ledger (no_leak); from_buffer canonical incl. compactness; clone_from equal/canonical/independent "
                "for all size relations; ones canonical; capacity policy chain on the regenerated formulas; one obligation per "
-               "modelled unsafe block (unsafe_<file>_<line>); bump-allocator slices aligned, inside, pairwise disjoint. "
-               "static-backed values read-only; shift.rs/primitive.rs block obligations; every UBig + - * / % << >> form is a history over the "
+               "modelled unsafe block (unsafe_<file>_<line>); bump-allocator slices aligned, inside, pairwise disjoint; memory.rs layout "
+               "arithmetic valid, MemoryAllocation::new's too-much arm dead, add_layout sufficient for its consumers; the pow result "
+               "buffer's length bound. "
+               "static-backed values read-only; shift.rs/primitive.rs block obligations; every mirrored public operation (see REFINED) is a history over the "
                "proved op alphabet, so canonical results incl. the compactness bound hold after arithmetic whatever the kernels write "
                "(arithmetic_histories_keep_invariant, invariant_says_canonical). "
                "VALIDATED by correspondence: mem.buf traces (state + allocator event stream, exact), mem.arith (public op vs storage "
@@ -103,14 +138,23 @@ LEVEL_TEXT = ("Machine-checked Lean 4 theorems over an executable ledger model o
               "max_compact_capacity, and zero is never negative. The model is tied to /repo on every run by (A) regenerating the "
               "capacity-policy formulas from buffer.rs and (B) differential execution: the real Buffer (through the dashu_verif "
               "BufferHandle hook) and UBig/IBig run the same histories under a counting global allocator and must show the same "
-              "state and the same allocator event stream after every operation. PARTIAL: Rust-level UB beyond bounds/lifetime "
-              "(aliasing, transmute validity, uninitialised reads) and the public arithmetic API are not decided by proof; they are "
-              "explored by value-level histories with invariant checks and by Miri runs of the same histories.")
+              "state and the same allocator event stream after every operation. Public operations enter the theorems as storage "
+              "skeletons (the exact sequence of Buffer/Repr calls, word-level kernels abstracted to an arbitrary overwrite) that are "
+              "compared with the real allocator event stream: UBig + - * / % div_rem & | ^ << >> sqr pow, set_bit/clear_bit/"
+              "clear_high_bits/split_bits/next_power_of_two, sqrt_rem, from_le/be_bytes, IBig + - * / % div_rem & | ^ << >> pow, all ownership "
+              "forms incl. the compound assignments. "
+              "memory.rs layout arithmetic (array_layout/add_layout/max_layout, MemoryAllocation::new/Drop) is proved valid, its "
+              "allocate_too_much arm dead, add_layout sufficient for its two bump consumers. PARTIAL: Rust-level UB beyond "
+              "bounds/lifetime (aliasing, transmute validity, uninitialised reads) is not decided by proof; gcd, sqrt()/nth_root, parsing/printing, "
+              "Euclidean division and primitive-operand forms are covered only through their final from_buffer and explored by "
+              "value-level histories with invariant checks and by Miri runs of the same histories; that a skeleton never hits an "
+              "internal assert is observed, not proved (except the pow result-buffer length bound).")
 LEVEL_NOTE = ("Trusted: Lean kernel; axioms propext/Classical.choice/Quot.sound; vlib/extract.py for the two policy formulas; the "
               "harness incl. its counting allocator, the history generators (sampling) for the tie model<->code; Miri (support "
               "only). Not modelled: zeroize paths, Send/Sync impls, allocation failure; MemoryAllocation::new/Drop only as the scratch "
               "alloc/free events of the mul skeleton; the memory.rs bump-splitting theorems are tied through the memory_split hook for "
-              "16-aligned blocks only; sqr::MAX_LEN_SIMPLE = 30 is a literal in the driver (not regenerated). ensure_capacity_exact(c) needs c <= MAX_CAPACITY for the invariant (hypothesis Op.Ok; counterexample "
+              "16-aligned blocks only; the Layout arithmetic of memory.rs is a transcription of core::alloc::Layout's documented behaviour (std is trusted). "
+              "sqr::MAX_LEN_SIMPLE, the mul/div thresholds and the capacity policy are regenerated from source (Dashu.Gen, Tie A). ensure_capacity_exact(c) needs c <= MAX_CAPACITY for the invariant (hypothesis Op.Ok; counterexample "
               "theorem ensure_capacity_exact_breaks_max) — its only caller passes an existing buffer's length.")
 TECHNIQUE = ("Lean 4 program logic (Hoare triples over an event-emitting monad + independent trace checker), induction over "
              "histories; differential correspondence incl. allocator event streams; Miri as support")
@@ -179,6 +223,10 @@ def _tok_view(tok):
     body = tok.split("|")[0]
     if body == "e":
         return ("e",), True
+    if "&" in body:
+        # (quotient & remainder) of div_rem: both must satisfy the layout clauses
+        parts = [_tok_view(x) for x in body.split("&")]
+        return ("pair",) + tuple(v for v, _ in parts), all(ok for _, ok in parts)
     m = re.fullmatch(r"b(\d+)/(\d+)/(.*)", body)
     if m:
         ln, cap, ws = int(m.group(1)), int(m.group(2)), m.group(3)
@@ -933,7 +981,13 @@ def miri_cases(rng, tier):
     B3 = (1 << 192) - 1
     hists += [("arith", ["add", "vv", hx(B3), hx(B3)]), ("arith", ["sub", "rv", hx(1 << 200), hx(B3)]),
               ("arith", ["sub", "rr", hx(B3), hx(1 << 200)]), ("arith", ["mul", "vr", hx(B3), hx((1 << 70) + 1)]),
-              ("arith", ["shl", "v", hx(B3), "d:200"]), ("arith", ["shr", "r", hx(B3 << 70), "d:130"])]
+              ("arith", ["shl", "v", hx(B3), "d:200"]), ("arith", ["shr", "r", hx(B3 << 70), "d:130"]),
+              # round 4: div_rem in the operand buffers, | growing the shorter by-value buffer, set_bit beyond the capacity,
+              # negative >> with a rounding carry, pow on the single result buffer, sqrt_rem, a compound assignment
+              ("arith", ["divrem", "vv", hx((B3 << 64) + 12345), hx(B3 - 99)]), ("arith", ["or", "vr", hx(B3), hx(1 << 600)]),
+              ("arith", ["setbit", "v", hx(B3), "d:448"]), ("arith", ["ishr", "v", hx(-((1 << 197) - 1)), "d:5"]),
+              ("arith", ["pow", "r", hx((1 << 64) + 1), "d:5"]), ("arith", ["pow", "r", hx(3 << 70), "d:90"]),
+              ("arith", ["sqrtrem", "r", hx((B3 << 128) + 7), "d:0"]), ("arith", ["xor", "av", hx(B3), hx(B3)])]
     if tier == "thorough":
         for _ in range(700):
             hists.append(("buf", buf_history(rng, rng.choice([6, 12, 25]))))
@@ -941,6 +995,19 @@ def miri_cases(rng, tier):
             hists.append(("val", val_history(rng, rng.choice([6, 12, 25]), 4000)))
         ar = [c for c in arith_cases(rng, "quick") if sum(len(a) for a in c.args) < 400]
         for c in rng.sample(ar, min(600, len(ar))):
+            hists.append(("arith", list(c.args)))
+
+        def _miri_ok(c):
+            if sum(len(a) for a in c.args) >= 300:
+                return False
+            if c.args[0] in ("pow", "ipow"):
+                return int(c.args[3][2:]) <= 48
+            if c.args[0] in ("setbit", "ishl", "shl"):
+                return int(c.args[3][2:]) <= 4096
+            return True
+        ar4 = [c for c in list(with_assign_forms(rng, round4_cases(rng, "quick"))) + list(with_assign_forms(rng, round4b_cases(rng, "quick")))
+               + list(sqrt_cases(rng, "quick")) + list(with_assign_forms(rng, ibit_cases(rng, "quick"))) if _miri_ok(c)]
+        for c in rng.sample(ar4, min(500, len(ar4))):
             hists.append(("arith", list(c.args)))
         hists = [h for h in hists if h[1]]
     tdir = tempfile.mkdtemp(prefix="verif-miri-")
@@ -1101,6 +1168,244 @@ def arith_cases(rng, tier):
                     yield Case("mem.arith", ["shr", f, hx(a), "d:%d" % n])
 
 
+def round4_cases(rng, tier):
+    """mem.arith, round 4: DivRem::div_rem (both results built in the operand buffers), & | ^ with buffer reuse
+    (truncate / lowest_dword(_mut) / ensure_capacity + push_slice of the longer tail), UBig::pow (factor-2 removal,
+    exp 0/1/2 shortcuts, word / dword / large base; the one result buffer that must never reallocate)"""
+    B = 1 << 64
+    forms = ["rr", "rv", "vr", "vv"]
+
+    def operand(n, pat):
+        return nat_pattern(rng, n, pat) if n else 0
+
+    lens = [0, 1, 2, 3, 4, 5, 9, 17, 40] if tier == "quick" else [0, 1, 2, 3, 4, 5, 6, 8, 9, 12, 17, 24, 25, 40]
+    reps = 1 if tier == "quick" else 5
+    for _ in range(reps):
+        for la in lens:
+            for lb in lens:
+                for f in forms:
+                    a = operand(la, rng.choice(["ones", "random", "random", "topone"]))
+                    b = operand(lb, rng.choice(["ones", "random", "one", "pow2", "highbit"]))
+                    # div_rem: general, divisor zero (only the small arm can be zero), exact multiple, equal, lhs shorter
+                    yield Case("mem.arith", ["divrem", f, hx(a), hx(b)])
+                    r = rng.random()
+                    if r < 0.15:
+                        yield Case("mem.arith", ["divrem", f, hx(a), hx(0)])
+                    elif r < 0.3 and b:
+                        yield Case("mem.arith", ["divrem", f, hx(a - a % b), hx(b)])          # remainder 0
+                    elif r < 0.45:
+                        yield Case("mem.arith", ["divrem", f, hx(a), hx(a >> rng.choice([0, 1, 64, 65]))])
+                    elif r < 0.55 and b:
+                        yield Case("mem.arith", ["divrem", f, hx(a // b * b + rng.choice([0, 1, b - 1])), hx(b)])
+                    # bit operations
+                    for op in ("and", "or", "xor"):
+                        if rng.random() < (0.6 if tier == "quick" else 1.0):
+                            yield Case("mem.arith", [op, f, hx(a), hx(b)])
+                    r = rng.random()
+                    m = min(la, lb)
+                    if r < 0.2:
+                        yield Case("mem.arith", ["xor", f, hx(a), hx(a)])                     # cancels to zero: dealloc
+                    elif r < 0.4 and la >= 3:
+                        # high parts cancel / are masked away: the result falls to <= 2 words (or to fewer words)
+                        k = rng.choice([0, 1, 2, 3, max(la - 1, 0)])
+                        low = a & ((1 << (64 * k)) - 1)
+                        yield Case("mem.arith", ["xor", f, hx(a), hx(a ^ low ^ rng.getrandbits(64 * k) if k else a)])
+                        yield Case("mem.arith", ["and", f, hx(a), hx((1 << (64 * k)) - 1 if k else 0)])
+                        yield Case("mem.arith", ["and", f, hx((1 << (64 * la - 1))), hx(((1 << (64 * max(lb, 3))) - 1) >> 1)])
+                    elif r < 0.5 and m >= 3:
+                        # disjoint bits: `&` gives 0 from two large operands
+                        mask = int("55" * (8 * m), 16)
+                        yield Case("mem.arith", ["and", f, hx(a & mask | (1 << (64 * la - 1))), hx((b & (mask << 1)) | (1 << (64 * lb - 2)))])
+    # divide-and-conquer scratch block inside div_rem_in_lhs
+    for (la, lb) in [(66, 33), (70, 33), (100, 40)] + ([(140, 70), (300, 150)] if tier == "thorough" else []):
+        for f in forms:
+            yield Case("mem.arith", ["divrem", f, hx(operand(la, "random")), hx(operand(lb, rng.choice(["random", "highbit"])))])
+    # `|`/`^` where the by-value (reused) buffer is the SHORTER one and must grow: capacity steps
+    for (la, lb) in [(3, 4), (3, 5), (3, 6), (3, 40), (4, 7), (8, 12), (8, 13), (16, 21), (16, 22), (17, 200)]:
+        for op in ("or", "xor"):
+            a, b = operand(la, "random"), operand(lb, "random")
+            yield Case("mem.arith", [op, "vr", hx(a), hx(b)])
+            yield Case("mem.arith", [op, "rv", hx(b), hx(a)])
+            yield Case("mem.arith", [op, "vv", hx(a), hx(b)])
+            yield Case("mem.arith", [op, "vv", hx(b), hx(a)])
+    # pow
+    small_bases = [0, 1, 2, 3, 5, 7, 10, 12, 255, 256, 1 << 31, (1 << 32) - 1, (1 << 32) + 1, (1 << 63) + 1, B - 1,
+                   3 << 62, B + 1, B * B - 1, (B + 1) << 7, 3 * (1 << 70), 1 << 100, 1 << 127]
+    exps = [0, 1, 2, 3, 4, 5, 6, 7, 8, 9, 15, 16, 17, 31, 32, 39, 40, 41, 63, 64, 79, 80, 81, 100, 120, 127, 128, 160, 200, 255, 256,
+            257, 400, 1000]
+    lim = 40000 if tier == "quick" else 400000
+    for a in small_bases:
+        for e in exps:
+            if max(a.bit_length(), 1) * e <= lim:
+                yield Case("mem.arith", ["pow", "r", hx(a), "d:%d" % e])
+    for la in [3, 4, 5, 9, 17] + ([30, 31, 40] if tier == "thorough" else []):
+        for pat in ("random", "ones", "pow2", "topone"):
+            a = operand(la, pat)
+            for sh in (0, 1, 64, 70):
+                for e in [0, 1, 2, 3, 4, 5, 6, 7, 8, 11, 12, 16] + ([33, 40] if tier == "thorough" else []):
+                    v = (a | 1) << sh if pat != "pow2" else a << sh
+                    if v.bit_length() * e <= lim:
+                        yield Case("mem.arith", ["pow", "r", hx(v), "d:%d" % e])
+    for _ in range(150 if tier == "quick" else 3000):
+        a = rng.choice([rng.getrandbits(rng.choice([8, 20, 33, 64])) | 1, rng.getrandbits(rng.choice([65, 100, 128])) | (1 << 64) | 1,
+                        nat_pattern(rng, rng.choice([3, 4, 6]), "random")]) << rng.choice([0, 0, 1, 5, 64])
+        e = rng.choice([3, 5, 9, 17, 33, 65, 77, 90, 130, 200, 333, 500, rng.randrange(3, 300)])
+        if max(a.bit_length(), 1) * e <= lim:
+            yield Case("mem.arith", ["pow", "r", hx(a), "d:%d" % e])
+    # `exp.checked_mul(shift)` overflowing usize: the documented allocation panic, AFTER shr and pow have run
+    yield Case("mem.arith", ["pow", "r", hx(4), "d:%d" % (1 << 63)])
+    yield Case("mem.arith", ["pow", "r", hx(1 << 200), "d:%d" % (1 << 60)])
+    yield Case("mem.arith", ["pow", "r", hx(1), "d:%d" % ((1 << 64) - 1)])
+    yield Case("mem.arith", ["pow", "r", hx(0), "d:%d" % ((1 << 64) - 1)])
+
+
+def round4b_cases(rng, tier):
+    """mem.arith, round 4 (second batch): the in-place bit methods of UBig (set_bit / clear_bit / clear_high_bits /
+    split_bits / next_power_of_two: the value's own buffer grows, is truncated or gets a carry word) and the IBig sign glue
+    over the UBig skeletons (/ % div_rem << >> pow; a negative >> is a shift followed by a by-value subtraction)"""
+    forms = ["rr", "rv", "vr", "vv"]
+
+    def operand(n, pat):
+        return nat_pattern(rng, n, pat) if n else 0
+
+    lens = [0, 1, 2, 3, 4, 5, 9, 17] if tier == "quick" else [0, 1, 2, 3, 4, 5, 6, 8, 9, 12, 17, 24, 40]
+    reps = 1 if tier == "quick" else 4
+    for _ in range(reps):
+        for la in lens:
+            for pat in ("random", "ones", "pow2", "topone"):
+                a = operand(la, pat)
+                cap = dc(la) if la > 2 else la
+                ns = {0, 1, 63, 64, 65, 127, 128, 129, 130, 191, 192, max(64 * la - 1, 0), 64 * la, 64 * la + 1, max(64 * la - 64, 0),
+                      max(64 * la - 65, 0), max(64 * cap - 1, 0), 64 * cap, 64 * cap + 1, 64 * (la + 20), max(a.bit_length() - 1, 0),
+                      a.bit_length(), rng.randrange(0, 64 * la + 70)}
+                for n in sorted(ns):
+                    for op in ("setbit", "clearbit", "clearhigh", "splitbits"):
+                        if rng.random() < (0.5 if tier == "quick" else 1.0):
+                            yield Case("mem.arith", [op, "v", hx(a), "d:%d" % n])
+                yield Case("mem.arith", ["nextpow2", "v", hx(a), "d:0"])
+                yield Case("mem.arith", ["nextpow2", "v", hx(a + 1), "d:0"])
+                yield Case("mem.arith", ["nextpow2", "v", hx(max(a - 1, 0)), "d:0"])
+                # IBig shifts
+                for sg in (1, -1):
+                    sh = {0, 1, 63, 64, 65, 128, max(64 * la - 1, 0), 64 * la, 64 * la + 5, max(64 * la - 128, 0), max(64 * la - 129, 0),
+                          max(a.bit_length() - 1, 0), a.bit_length(), 200}
+                    for n in sorted(sh):
+                        for f in ("v", "r"):
+                            if rng.random() < (0.5 if tier == "quick" else 1.0):
+                                yield Case("mem.arith", ["ishr", f, hx(sg * a), "d:%d" % n])
+                            if rng.random() < (0.25 if tier == "quick" else 0.6):
+                                yield Case("mem.arith", ["ishl", f, hx(sg * a), "d:%d" % n])
+    # negative >> whose rounding carry adds a word / crosses the inline boundary: -(2^(64k+s) - 1) >> s = -(2^(64k))
+    for k in (1, 2, 3, 4, 5, 8, 9):
+        for s_ in (1, 5, 64, 70):
+            for f in ("v", "r"):
+                yield Case("mem.arith", ["ishr", f, hx(-((1 << (64 * k + s_)) - 1)), "d:%d" % s_])
+                yield Case("mem.arith", ["ishr", f, hx(-(((1 << (64 * k)) - 1) << s_)), "d:%d" % s_])     # low bits zero: no carry
+                yield Case("mem.arith", ["ishr", f, hx(-((1 << (64 * k + s_)) - 1)), "d:%d" % (64 * k + s_ + 3)])   # -> -1
+    # IBig / % div_rem
+    dl = [0, 1, 2, 3, 4, 9, 17] if tier == "quick" else [0, 1, 2, 3, 4, 5, 9, 17, 24, 40]
+    for _ in range(reps):
+        for la in dl:
+            for lb in dl:
+                for f in forms:
+                    sa, sb = rng.choice([1, -1]), rng.choice([1, -1])
+                    a = operand(la, rng.choice(["random", "ones", "topone"]))
+                    b = operand(lb, rng.choice(["random", "one", "pow2", "highbit"]))
+                    r = rng.random()
+                    if r < 0.15 and b:
+                        a = a - a % b
+                    elif r < 0.25:
+                        b = a
+                    for op in ("idiv", "irem", "idivrem"):
+                        if rng.random() < (0.6 if tier == "quick" else 1.0):
+                            yield Case("mem.arith", [op, f, hx(sa * a), hx(sb * b)])
+    for f in forms:
+        yield Case("mem.arith", ["idivrem", f, hx(-operand(70, "random")), hx(operand(34, "random"))])
+        yield Case("mem.arith", ["idiv", f, hx(-5), hx(0)])
+        yield Case("mem.arith", ["irem", f, hx(-operand(4, "random")), hx(0)])
+        yield Case("mem.arith", ["idivrem", f, hx(-operand(4, "random")), hx(0)])
+    # IBig::pow
+    for a in [0, 1, -1, 2, -2, -3, 7, -10, -12, -(1 << 64) + 1, -(1 << 64) - 1, -(3 << 70), -(1 << 100), -nat_pattern(rng, 3, "random") | 1,
+              -(nat_pattern(rng, 4, "random") << 3)]:
+        for e in [0, 1, 2, 3, 4, 5, 8, 9, 40, 41, 80, 81, 100]:
+            if max(abs(a).bit_length(), 1) * e <= (40000 if tier == "quick" else 300000):
+                yield Case("mem.arith", ["ipow", "r", hx(a), "d:%d" % e])
+
+
+ASSIGNABLE = {"add", "sub", "mul", "div", "rem", "and", "or", "xor", "iadd", "isub", "imul", "idiv", "irem", "iand", "ior", "ixor"}
+
+
+def with_assign_forms(rng, cases):
+    """beside a by-value-lhs case also its compound-assignment form (`x op= y` = av, `x op= &y` = ar, `x <<= n` = a):
+    impl_binop_assign_by_taking is `*self = mem::take(self) op rhs`, so the storage skeleton is the vv / vr / v one"""
+    for c in cases:
+        yield c
+        if c.op == "mem.arith":
+            o, f = c.args[0], c.args[1]
+            if o in ASSIGNABLE and f in ("vv", "vr") and rng.random() < 0.35:
+                yield Case("mem.arith", [o, "av" if f == "vv" else "ar"] + list(c.args[2:]))
+            elif o in ("shl", "shr", "ishl", "ishr") and f == "v" and rng.random() < 0.35:
+                yield Case("mem.arith", [o, "a"] + list(c.args[2:]))
+
+
+def sqrt_cases(rng, tier):
+    """UBig::sqrt_rem(&self): operand lengths odd/even (the shift adds a whole word for odd lengths), leading-zero count of
+    the top word odd/even, perfect squares (remainder 0 -> inline), s^2 - 1 / s^2 + 2s (largest remainders: n+1 words),
+    n = 2 (no scratch block) and lengths around the sqr/div scratch thresholds"""
+    lens = [0, 1, 2, 3, 4, 5, 6, 7, 8, 9, 16, 17, 24, 25, 33, 40, 61, 62, 64, 65, 70] + ([100, 131, 200, 400] if tier == "thorough" else [])
+    reps = 1 if tier == "quick" else 4
+    for _ in range(reps):
+        for la in lens:
+            for pat in ("random", "ones", "pow2", "topone", "square", "squarem1", "squarep"):
+                if pat in ("square", "squarem1", "squarep"):
+                    h = nat_pattern(rng, (la + 1) // 2, "random") if la else 0
+                    a = h * h + {"square": 0, "squarem1": -1, "squarep": 2 * h}[pat]
+                    a = max(a, 0)
+                else:
+                    a = nat_pattern(rng, la, pat) if la else 0
+                for sh in (0, rng.randrange(1, 64), rng.randrange(1, 64)):
+                    yield Case("mem.arith", ["sqrtrem", "r", hx(a >> sh), "d:0"])
+
+
+def ibit_cases(rng, tier):
+    """IBig & | ^ over all sign pairs: sub_one on negative magnitudes (2^k -> k ones: loses a word / falls inline), and_not with
+    a copied / reused lhs buffer, the final `!` (add_one: all-ones + 1 carries into a new word -> push_resizing)"""
+    forms = ["rr", "rv", "vr", "vv"]
+    lens = [0, 1, 2, 3, 4, 5, 9, 17] if tier == "quick" else [0, 1, 2, 3, 4, 5, 6, 8, 9, 12, 17, 24, 40]
+    reps = 1 if tier == "quick" else 4
+
+    def operand(n, pat):
+        return nat_pattern(rng, n, pat) if n else 0
+
+    for _ in range(reps):
+        for la in lens:
+            for lb in lens:
+                for f in forms:
+                    for (sa, sb) in ((1, 1), (1, -1), (-1, 1), (-1, -1)):
+                        if tier == "quick" and rng.random() < 0.5:
+                            continue
+                        a = operand(la, rng.choice(["random", "ones", "pow2", "topone"]))
+                        b = operand(lb, rng.choice(["random", "ones", "pow2", "one"]))
+                        r = rng.random()
+                        if r < 0.15:
+                            b = a
+                        elif r < 0.3:
+                            b = a + 1          # -(a+1) = !a: `x op !x`
+                        elif r < 0.4 and la:
+                            a = 1 << (64 * la - rng.choice([0, 1]) * 64) if la > 1 else 1   # sub_one loses a word
+                        op = rng.choice(["iand", "ior", "ixor"])
+                        yield Case("mem.arith", [op, f, hx(sa * a), hx(sb * b)])
+    # the final `!` carrying into a new word: magnitudes of all ones
+    for k in (1, 2, 3, 4, 5, 8, 9):
+        ones = (1 << (64 * k)) - 1
+        for f in forms:
+            yield Case("mem.arith", ["ior", f, hx(-(ones + 1)), hx(0)])                  # !(ones) = -(ones+1): stays
+            yield Case("mem.arith", ["ixor", f, hx(ones), hx(-1)])                       # !(ones ^ 0) = -(ones + 1): carry
+            yield Case("mem.arith", ["iand", f, hx(-(ones + 1)), hx(-(ones + 1))])       # !(ones | ones): carry
+            yield Case("mem.arith", ["ior", f, hx(-(1 << (64 * k))), hx(-(1 << (64 * k)))])
+            yield Case("mem.arith", ["iand", f, hx(ones << 64), hx(-(1 << 64))])
+
+
 def bump_cases(rng, tier):
     """memory.rs bump allocator through the memory_split hook: nested allocate_slice_fill of u8..u128 slices from a
     16-aligned block; offsets/lengths and the out-of-memory point against Model/Mem/Memory.lean"""
@@ -1108,6 +1413,14 @@ def bump_cases(rng, tier):
     yield Case("mem.bump", ["d:0"])
     yield Case("mem.bump", ["d:0", "3:0", "0:0"])
     yield Case("mem.bump", ["d:0", "0:1"])
+    # try_find_memory_for_slice: `n.checked_mul(size_of::<T>())?` and `slice_start.checked_add(size)?` returning None
+    # (the request is reported as "not enough memory", no wrapped pointer arithmetic)
+    for tot in (0, 64, 4096):
+        yield Case("mem.bump", ["d:%d" % tot, "4:%d" % (1 << 60)])
+        yield Case("mem.bump", ["d:%d" % tot, "3:%d" % (1 << 61)])
+        yield Case("mem.bump", ["d:%d" % tot, "0:1", "1:%d" % ((1 << 63) + 5)])
+        yield Case("mem.bump", ["d:%d" % tot, "0:%d" % ((1 << 64) - 1)])
+        yield Case("mem.bump", ["d:%d" % tot, "2:%d" % ((1 << 62) - 1)])
     for _ in range(400 if tier == "quick" else 20000):
         tot = rng.choice([0, 1, 7, 8, 15, 16, 17, 31, 32, 33, 48, 64, 100, 128, 1000, 4096, rng.randrange(0, 300)])
         reqs = ["%d:%d" % (rng.randrange(5), rng.choice([0, 1, 1, 2, 3, 5, 8, 17, rng.randrange(0, 40)]))
@@ -1118,7 +1431,11 @@ def bump_cases(rng, tier):
 def generate(rng, tier):
     yield from policy_cases(rng, tier)
     yield from bump_cases(rng, tier)
-    yield from arith_cases(rng, tier)
+    yield from with_assign_forms(rng, arith_cases(rng, tier))
+    yield from with_assign_forms(rng, round4_cases(rng, tier))
+    yield from with_assign_forms(rng, round4b_cases(rng, tier))
+    yield from sqrt_cases(rng, tier)
+    yield from with_assign_forms(rng, ibit_cases(rng, tier))
     yield from clone_from_ladder(rng, tier)
     yield from buf_cases(rng, tier)
     yield from val_cases(rng, tier)
